@@ -11,7 +11,7 @@
 From Coq Require Import ZArith Lia Bool.
 From CL Require Import Base.StrLemmas Model.Lexer Model.Parser Model.Printer Model.Denote Model.DenoteQuiet Model.EventBridge.
 From CL Require Import Model.Diag Model.AnalysisLabels Model.AnalysisDiag.
-From CL Require Import Proofs.RoundTrip Proofs.RoundTripAnalysis.
+From CL Require Import Proofs.RoundTrip Proofs.RoundTripSpans Proofs.RoundTripAnalysis.
 From CL Require Model.Events Model.Analysis.
 From CL Require Proofs.ParserShape Proofs.AnalysisProofs Proofs.DiagProofs Proofs.DiagPlaced Proofs.RoundTripPrintDoc.
 Open Scope N_scope.
@@ -503,6 +503,28 @@ Section Sound.
     destruct (is_config x _); reflexivity.
   Qed.
 
+  (* the quiet class never enters text mode *)
+  Lemma qmeta_no_text ts b : qmeta_ok x std_check ts b = true -> to_text x b = false.
+  Proof.
+    unfold qmeta_ok, is_config, to_text. destruct (A.x_modes x); [|reflexivity]. cbn [andb].
+    destruct (block_config b) as [[d|r| |]|]; cbn [E.is_some]; try reflexivity.
+    destruct d; try reflexivity. discriminate.
+  Qed.
+
+  Lemma quiet_never_text d : forall m ts,
+    in_text_mode m = false -> qblocks_ok x std_check is_alnum d m ts = true -> text_reached modes d m = false.
+  Proof.
+    induction d as [|b r IH]; intros m ts Hm Hq; [reflexivity|]. cbn [qblocks_ok] in Hq. apply andb_true_iff in Hq as [Hb Hq].
+    cbn [text_reached]. rewrite Hm. cbn [orb].
+    assert (Hm' : in_text_mode (next_mode modes m b) = false).
+    { destruct b as [key v|n1 nm n2 tr|items|ls].
+      - apply next_mode_no_text; [exact Hm|]. exact (qmeta_no_text ts _ Hb).
+      - rewrite (next_mode_other modes m (BkSection n1 nm n2 tr) I). exact Hm.
+      - rewrite (next_mode_other modes m (BkStep items) I). exact Hm.
+      - rewrite (next_mode_other modes m (BkText ls) I). exact Hm. }
+    exact (IH _ _ Hm' Hq).
+  Qed.
+
   (* ---------------------------------------------------------------- documents *)
   Lemma drun_blocks d : forall m k ts evs secs name content igs cws tms inl cnt err il cl used tm pr ck,
     in_text_mode m = false ->
@@ -546,7 +568,7 @@ Section Sound.
           rewrite (metadata_sim x m secs cur igs cws tms inl None cnt err tk tv key v Hk Hv Hbok). cbn [obind].
           unfold D.ediags, D.dupd. rewrite Hmd. cbn [fst snd obind ds_iloc ds_cloc ds_used ds_time ds_prep ds_cook]. reflexivity. }
         destruct (IH _ k _ e2 secs name content igs cws tms inl cnt err il cl used' tm' pr' ck'
-                    (next_mode_no_text x m _ Hm Hbok) Hlk' He2 Hne' Hok Hqb Wi Wc Ri Rc Qi Qc Li Lc Htl' Hc1) as (st' & Hr & Hl).
+                    (next_mode_no_text x m _ Hm (qmeta_no_text ts _ Hqb1)) Hlk' He2 Hne' Hok Hqb Wi Wc Ri Rc Qi Qc Li Lc Htl' Hc1) as (st' & Hr & Hl).
         { cbn [Nat.add] in Hcb. exact Hcb. }
         exists st'. split; [exact (drun_cons_quiet _ _ _ _ _ Hds Hr)|]. rewrite Hl, Hlen. lia.
       + (* section line *)
@@ -569,7 +591,7 @@ Section Sound.
         exists st'. split; [exact (drun_cons_quiet _ _ _ _ _ Hds Hr)|]. rewrite Hl. lia.
       + (* step block *)
         rewrite (next_mode_other modes m (BkStep items) I) in *.
-        cbn [block_ne] in Hb. cbn [ablock_ok] in Hbok.
+        cbn [block_ne] in Hb. cbn [ablock_ok] in Hbok. rewrite Hm in Hbok. cbn [orb] in Hbok.
         destruct e1 as [|es e1]; [discriminate|]. cbn [map] in He1. injection He1 as Hes He1.
         apply map_eq_app in He1 as (em & ee & -> & Hem & Hee).
         destruct ee as [|ee [|? ?]]; try discriminate. cbn [map] in Hee. injection Hee as Hee.
@@ -588,7 +610,7 @@ Section Sound.
         set (tms' := tms ++ map raw_timer (filter is_tm (item_comps items))) in *.
         set (K' := snd (mitems find_iq (A.x_inline x) (in_components m) items (kcnt igs cws tms inl))) in *.
         set (IT := fst (mitems find_iq (A.x_inline x) (in_components m) items (kcnt igs cws tms inl))) in *.
-        destruct Hlk' as [Hlkc Hlkn].
+        destruct Hlk' as [Hlkc [Hlkn _]].
         destruct (mode_cases m Hm) as [[Ecm Edm]|[Ecm Edm]].
         * (* components mode *)
           assert (Hde : dstepF (DST (ST m secs cur igs' cws' tms' (n_q K') (Some (A.BStep IT)) cnt err) il' cl' used tm pr ck) (EvEnd true)
@@ -721,7 +743,9 @@ Section Sound.
     eexists _, st. unfold Diag.parse. rewrite Hev. cbn [obind]. unfold Diag.parse_events. split; [exact Hc|].
     split; [reflexivity|]. split; [|split].
     - pose proof (DiagPlaced.drun_run _ _ _ _ _ _ _ _ _ _ _ _ _ _ _ _ _ _ Hr) as Hrun. cbn [ds_a D.dinit] in Hrun.
-      pose proof (analyse_denote ci yaml_ok find_iq unit_class input x cfg d evs Hp Hbl Ha) as Han.
+      assert (Hnt : text_reached modes d mode0 = true -> Forall2 (src_ok input) evs (doc_srcs d) /\ strips d)
+        by (intro Ht; rewrite (quiet_never_text d mode0 ts0 eq_refl Hqb) in Ht; discriminate).
+      pose proof (analyse_denote ci yaml_ok find_iq unit_class input x cfg d evs Hp Hnt Hbl Ha) as Han.
       unfold A.analyse in Han. rewrite Hrun in Han. cbn [obind] in Han. injection Han as Han _. exact Han.
     - unfold Diag.is_valid, has_output, has_errors. cbn [pr_output pr_report r_tag r_buf report_empty app andb].
       rewrite DiagPlaced.sd_error_to_sdiag, DiagPlaced.dfinish_warn. reflexivity.
@@ -782,7 +806,9 @@ Section Sound.
     split; [reflexivity|]. split; [|split].
     - pose proof (DiagPlaced.drun_run _ _ _ _ _ _ _ _ _ _ _ _ _ _ _ _ _ _ Hr') as Hrun. cbn [ds_a D.dinit] in Hrun.
       assert (Hpf : map ev_proj (EvYaml t :: evs) = fm_doc_events y d) by (unfold fm_doc_events; cbn [map ev_proj]; rewrite He, Hp; reflexivity).
-      pose proof (analyse_denote_fm ci yaml_ok find_iq unit_class input x cfg y d _ Hpf Hbl Ha) as Han.
+      assert (Hnt : text_reached modes d mode0 = true -> Forall2 (src_ok input) (EvYaml t :: evs) (None :: doc_srcs d) /\ strips d)
+        by (intro Ht; rewrite (quiet_never_text d mode0 ts0 eq_refl Hqb) in Ht; discriminate).
+      pose proof (analyse_denote_fm ci yaml_ok find_iq unit_class input x cfg y d _ Hpf Hnt Hbl Ha) as Han.
       unfold A.analyse in Han. rewrite Hrun in Han. cbn [obind] in Han. injection Han as Han _. exact Han.
     - unfold Diag.is_valid, has_output, has_errors. cbn [pr_output pr_report r_tag r_buf report_empty app andb].
       rewrite DiagPlaced.sd_error_to_sdiag, DiagPlaced.dfinish_warn. reflexivity.
